@@ -1510,4 +1510,590 @@ theorem handle_reg (now : Rat) (k : K) (a : Nat) (r : Req) (h : RegInv k) (hp : 
   | cancel i => exact handle_reg_cancel now k a i h hp
   | killAt t => exact handle_reg_killAt now k a t h hp
 
+/-! ### timers firing -/
+
+theorem mem_removeNth_of_ne {α} (l : List α) (j : Nat) (x t : α) (hx : x ∈ l) (ht : l[j]? = some t) (hne : x ≠ t) :
+    x ∈ removeNth l j := by
+  induction l generalizing j with
+  | nil => simp at hx
+  | cons y ys ih =>
+    cases j with
+    | zero =>
+      simp only [List.getElem?_cons_zero, Option.some.injEq] at ht
+      simp only [removeNth]
+      rcases List.mem_cons.mp hx with h | h
+      · exact absurd (h.trans ht) hne
+      · exact h
+    | succ n =>
+      simp only [List.getElem?_cons_succ] at ht
+      simp only [removeNth, List.mem_cons]
+      rcases List.mem_cons.mp hx with h | h
+      · exact Or.inl h
+      · exact Or.inr (ih n h ht)
+
+theorem id_ne_of_mem_removeNth (T : List Timer) (j : Nat) (t t' : Timer) (hnd : (T.map (·.id)).Nodup)
+    (ht : T[j]? = some t) (ht' : t' ∈ removeNth T j) : t'.id ≠ t.id := by
+  induction T generalizing j with
+  | nil => simp [removeNth] at ht'
+  | cons y ys ih =>
+    simp only [List.map_cons, List.nodup_cons, List.mem_map, not_exists, not_and] at hnd
+    cases j with
+    | zero =>
+      simp only [List.getElem?_cons_zero, Option.some.injEq] at ht
+      simp only [removeNth] at ht'
+      subst ht
+      exact hnd.1 t' ht'
+    | succ n =>
+      simp only [List.getElem?_cons_succ] at ht
+      simp only [removeNth, List.mem_cons] at ht'
+      rcases ht' with h | h
+      · subst h
+        intro e
+        exact hnd.1 t (List.mem_of_getElem? ht) e.symm
+      · exact ih n hnd.2 ht h
+
+theorem clearK_reg (k : K) (a : Nat) (h : RegInv k) : RegInv (k.setActor a fun x => { x with ktimer := none }) := by
+  by_cases ha : a < k.actors.length
+  · refine RegInv.mk' _ (RegInvF.upd h a ({ (k.actor a) with ktimer := none } : Actor).ar k.simF
+      ?_ ?_ ?_ ?_ ?_ ?_ (h.slots a) (h.pidx a) (h.rank a) (h.pb a)) rfl
+      (by rw [arF_setActor _ _ _ ha]) rfl rfl rfl
+    · intro b j hb
+      by_cases hba : b = a
+      · subst hba; simp only [updF_same] at hb ⊢; exact h.cnt b j hb
+      · rw [updF_ne _ _ _ _ hba] at hb ⊢; exact h.cnt b j hb
+    · exact h.idle a
+    · exact h.shape a
+    · intro t ht hc
+      have := h.tlink t ht
+      unfold TLinkF at this ⊢
+      cases hcb : t.cb with
+      | kill b => trivial
+      | wto b i =>
+        rw [hcb] at hc; injection hc with hc; subst hc
+        simp only [hcb] at this
+        simp only [updF_same]; exact this
+      | wany b is =>
+        rw [hcb] at hc; injection hc with hc; subst hc
+        simp only [hcb] at this
+        simp only [updF_same]; exact this
+    · exact h.rev a
+    · intro id' hid'; cases hid'
+  · rw [setActor_of_ge _ _ _ (by omega)]; exact h
+
+/-- `Timer::execute_all` pops timer `t` (index `j`) and runs its callback -/
+theorem fire_reg (k : K) (j : Nat) (t : Timer) (h : RegInv k) (ht : k.timers[j]? = some t) :
+    RegInv (({ k with timers := removeNth k.timers j } : K).fire t) := by
+  have htm : t ∈ k.timers := List.mem_of_getElem? ht
+  have hlink := h.tlink t htm
+  unfold K.fire
+  cases hcb : t.cb with
+  | kill a =>
+    simp only []
+    have h0 : RegInv ({ k with timers := removeNth k.timers j } : K) := by
+      refine RegInv.mk' _ (RegInvF.subTimers h (removeNth k.timers j) (removeNth_sublist _ _) ?_) rfl rfl rfl rfl rfl
+      intro t' ht' hc
+      refine mem_removeNth_of_ne _ _ _ _ ht' ht ?_
+      intro e; rw [e, hcb] at hc; exact hc rfl
+    exact (clearK_reg _ a (exit_reg _ a h0)).same (rsame_addToRun _ a)
+  | wto a i =>
+    simp only []
+    unfold TLinkF at hlink
+    simp only [hcb] at hlink
+    have ha : a < k.actors.length := by
+      by_cases hlt : a < k.actors.length
+      · exact hlt
+      · have := hlink.1
+        have e : (k.arF a).tcb = none := by show (k.actor a).ar.tcb = none; rw [actor_of_ge k a (by omega)]; rfl
+        rw [e] at this; cases this
+    have hnt : NT (removeNth k.timers j) a := by
+      intro t' ht' hc
+      have hl' := h.tlink t' ((removeNth_sublist _ _).subset ht')
+      have hid : (k.arF a).tcb = some t'.id := by
+        unfold TLinkF at hl'
+        cases hcb' : t'.cb with
+        | kill b => rw [hcb'] at hc; cases hc
+        | wto b i' => rw [hcb'] at hc; injection hc with hc; subst hc; simp only [hcb'] at hl'; exact hl'.1
+        | wany b is => rw [hcb'] at hc; injection hc with hc; subst hc; simp only [hcb'] at hl'; exact hl'.1
+      rw [hlink.1] at hid
+      injection hid with hid
+      exact id_ne_of_mem_removeNth _ _ _ _ h.tnd ht ht' hid.symm
+    have hkeep : ∀ t' ∈ k.timers, cbActor t'.cb ≠ some a → t' ∈ removeNth k.timers j := by
+      intro t' ht' hc
+      refine mem_removeNth_of_ne _ _ _ _ ht' ht ?_
+      intro e; rw [e, hcb] at hc; exact hc rfl
+    have h1 : RegInv (({ k with timers := removeNth k.timers j } : K).setActor a fun x => { x with tcb := none }) := by
+      refine RegInv.mk' _ (RegInvF.dropTimers h a ({ (k.actor a) with tcb := none } : Actor).ar k.simF
+        (removeNth k.timers j) (removeNth_sublist _ _) hnt hkeep ?_ ?_ ?_ rfl (h.klink a) (h.slots a)
+        (h.pidx a) (h.rank a) (h.pb a)) rfl
+        (by rw [arF_setActor _ _ _ (by simpa using ha)]; rfl) rfl rfl rfl
+      · intro b j' hb
+        by_cases hba : b = a
+        · subst hba; simp only [updF_same] at hb ⊢; exact h.cnt b j' hb
+        · rw [updF_ne _ _ _ _ hba] at hb ⊢; exact h.cnt b j' hb
+      · intro hw hid'; exact (h.idle a hw hid').1
+      · exact h.shape a
+    generalize hk1 : (({ k with timers := removeNth k.timers j } : K).setActor a fun x => { x with tcb := none }) = k1 at *
+    have e1 : k1.actor a = { k.actor a with tcb := none } := by
+      rw [← hk1]; exact actor_setActor_same _ _ _ (by simpa using ha)
+    have hnt1 : NT k1.timers a := by rw [← hk1]; exact hnt
+    split
+    · exact h1
+    · have h2 := unregister_reg k1 i a h1 hnt1
+      have e2 : (k1.unregister i a).actor a = { k.actor a with tcb := none, waiting := (k.actor a).waiting.erase i } := by
+        unfold K.unregister
+        rw [actor_setActor]
+        have : a < (k1.setImpl i fun x => { x with simcalls := x.simcalls.erase a }).actors.length := by
+          rw [← hk1]; simpa using ha
+        simp only [this, and_self, if_true]
+        show ({ k1.actor a with waiting := (k1.actor a).waiting.erase i } : Actor) = _
+        rw [e1]
+      apply answer_reg
+      · refine RegInv.flags h2 a _ rfl rfl rfl rfl rfl (h2.slots a) (h2.pidx a) (by intro hr; simp [Actor.ar] at hr)
+          (fun hw hid => h2.idle a hw hid) (h2.pb a)
+      · intro hw
+        have e3 : ∀ {β} (g : Actor → β) (hg : ∀ x r, g { x with res := r } = g x),
+            g (((k1.unregister i a).setActor a fun x => { x with res := Res.timeout }).actor a) =
+            g ((k1.unregister i a).actor a) := by
+          intro β g hg
+          exact actor_setActor_proj g _ a a _ (by intro x; exact hg x _)
+        rw [e3 (·.wannadie) (by intro _ _; rfl)] at hw
+        rw [e3 (·.waiting) (by intro _ _; rfl), e3 (·.tcb) (by intro _ _; rfl), e3 (·.pending) (by intro _ _; rfl)]
+        rw [e2] at hw ⊢
+        have hw' : (k.arF a).wd = false := hw
+        have hwait := hlink.2 hw'
+        have hwait' : (k.actor a).waiting = [i] := hwait
+        refine ⟨by simp [hwait'], rfl, ?_⟩
+        cases hpd : (k.actor a).pending with
+        | none => rfl
+        | some r =>
+          exfalso
+          have hid : (k.arF a).idle = true := by show (k.actor a).idle = true; simp [Actor.idle, hpd]
+          have := (h.idle a hw' hid).2
+          rw [hlink.1] at this; cases this
+  | wany a is =>
+    simp only []
+    unfold TLinkF at hlink
+    simp only [hcb] at hlink
+    have ha : a < k.actors.length := by
+      by_cases hlt : a < k.actors.length
+      · exact hlt
+      · have := hlink.1
+        have e : (k.arF a).tcb = none := by show (k.actor a).ar.tcb = none; rw [actor_of_ge k a (by omega)]; rfl
+        rw [e] at this; cases this
+    have hnt : NT (removeNth k.timers j) a := by
+      intro t' ht' hc
+      have hl' := h.tlink t' ((removeNth_sublist _ _).subset ht')
+      have hid : (k.arF a).tcb = some t'.id := by
+        unfold TLinkF at hl'
+        cases hcb' : t'.cb with
+        | kill b => rw [hcb'] at hc; cases hc
+        | wto b i' => rw [hcb'] at hc; injection hc with hc; subst hc; simp only [hcb'] at hl'; exact hl'.1
+        | wany b is => rw [hcb'] at hc; injection hc with hc; subst hc; simp only [hcb'] at hl'; exact hl'.1
+      rw [hlink.1] at hid
+      injection hid with hid
+      exact id_ne_of_mem_removeNth _ _ _ _ h.tnd ht ht' hid.symm
+    have hkeep : ∀ t' ∈ k.timers, cbActor t'.cb ≠ some a → t' ∈ removeNth k.timers j := by
+      intro t' ht' hc
+      refine mem_removeNth_of_ne _ _ _ _ ht' ht ?_
+      intro e; rw [e, hcb] at hc; exact hc rfl
+    have h1 : RegInv (({ k with timers := removeNth k.timers j } : K).setActor a fun x => { x with tcb := none }) := by
+      refine RegInv.mk' _ (RegInvF.dropTimers h a ({ (k.actor a) with tcb := none } : Actor).ar k.simF
+        (removeNth k.timers j) (removeNth_sublist _ _) hnt hkeep ?_ ?_ ?_ rfl (h.klink a) (h.slots a)
+        (h.pidx a) (h.rank a) (h.pb a)) rfl
+        (by rw [arF_setActor _ _ _ (by simpa using ha)]; rfl) rfl rfl rfl
+      · intro b j' hb
+        by_cases hba : b = a
+        · subst hba; simp only [updF_same] at hb ⊢; exact h.cnt b j' hb
+        · rw [updF_ne _ _ _ _ hba] at hb ⊢; exact h.cnt b j' hb
+      · intro hw hid'; exact (h.idle a hw hid').1
+      · exact h.shape a
+    generalize hk1 : (({ k with timers := removeNth k.timers j } : K).setActor a fun x => { x with tcb := none }) = k1 at *
+    have e1 : k1.actor a = { k.actor a with tcb := none } := by
+      rw [← hk1]; exact actor_setActor_same _ _ _ (by simpa using ha)
+    have hnt1 : NT k1.timers a := by rw [← hk1]; exact hnt
+    obtain ⟨h2, _, h4⟩ := foldl_unregister_reg is a k1 h1 hnt1
+    apply answer_reg
+    · refine RegInv.flags h2 a _ rfl rfl rfl rfl rfl (h2.slots a) (h2.pidx a) (by intro hr; simp [Actor.ar] at hr)
+        (fun hw hid => h2.idle a hw hid) (h2.pb a)
+    · intro hw
+      have e3 : ∀ {β} (g : Actor → β) (hg : ∀ x r, g { x with res := r } = g x),
+          g (((List.foldl (fun k j => k.unregister j a) k1 is).setActor a fun x => { x with res := Res.timeout }).actor a) =
+          g ((List.foldl (fun k j => k.unregister j a) k1 is).actor a) := by
+        intro β g hg
+        exact actor_setActor_proj g _ a a _ (by intro x; exact hg x _)
+      rw [e3 (·.wannadie) (by intro _ _; rfl)] at hw
+      rw [e3 (·.waiting) (by intro _ _; rfl), e3 (·.tcb) (by intro _ _; rfl), e3 (·.pending) (by intro _ _; rfl)]
+      have q : ((List.foldl (fun k j => k.unregister j a) k1 is).arF a) =
+          { k1.arF a with waiting := is.foldl (fun w j => w.erase j) (k1.arF a).waiting } := by
+        rw [h4]; simp
+      have q1 : (k1.arF a) = ({ k.actor a with tcb := none } : Actor).ar := by show (k1.actor a).ar = _; rw [e1]
+      have hw' : (k.arF a).wd = false := by
+        have : ((List.foldl (fun k j => k.unregister j a) k1 is).arF a).wd = false := hw
+        rw [q, q1] at this; exact this
+      obtain ⟨_, hbound⟩ := hlink.2 hw'
+      refine ⟨?_, ?_, ?_⟩
+      · show ((List.foldl (fun k j => k.unregister j a) k1 is).arF a).waiting = []
+        rw [q, q1]
+        apply eq_nil_of_count_zero
+        intro j'
+        simp only
+        rw [count_foldl_erase]
+        have := hbound j'
+        show (k.actor a).waiting.count j' - _ = 0
+        have e : (k.arF a).waiting = (k.actor a).waiting := rfl
+        rw [e] at this
+        omega
+      · show ((List.foldl (fun k j => k.unregister j a) k1 is).arF a).tcb = none
+        rw [q, q1]; rfl
+      · have hpn : (k.actor a).pending = none := by
+          cases hpd : (k.actor a).pending with
+          | none => rfl
+          | some r =>
+            exfalso
+            have hid : (k.arF a).idle = true := by show (k.actor a).idle = true; simp [Actor.idle, hpd]
+            have := (h.idle a hw' hid).2
+            rw [hlink.1] at this; cases this
+        have s := (shr_setActor ({ k with timers := removeNth k.timers j } : K) a (fun x => { x with tcb := none })
+          (by fr_side)).trans (shr_foldl_unregister is a _)
+        rw [hk1] at s
+        exact s.pnone a hpn
+
+/-! ### actors_to_run_ only holds actors that are dying or not in a simcall -/
+
+def RunInv (k : K) : Prop := ∀ a ∈ k.toRun, (k.actor a).wannadie = true ∨ (k.actor a).blocked = false
+
+structure RunFr (k k' : K) : Prop where
+  wd : ∀ a, (k.actor a).wannadie = true → (k'.actor a).wannadie = true
+  blk : ∀ a, (k.actor a).blocked = false → (k'.actor a).blocked = false
+  run : ∀ a ∈ k'.toRun, a ∈ k.toRun ∨ (k'.actor a).wannadie = true ∨ (k'.actor a).blocked = false
+
+theorem Shr.runFr {k k' : K} (s : Shr k k') : RunFr k k' := ⟨s.wd, s.blk, s.run⟩
+
+theorem RunFr.refl (k : K) : RunFr k k := ⟨fun _ h => h, fun _ h => h, fun _ h => Or.inl h⟩
+
+theorem RunFr.trans {k1 k2 k3 : K} (h1 : RunFr k1 k2) (h2 : RunFr k2 k3) : RunFr k1 k3 :=
+  ⟨fun a h => h2.wd a (h1.wd a h), fun a h => h2.blk a (h1.blk a h), fun a ha => by
+     rcases h2.run a ha with h | h
+     · rcases h1.run a h with h' | h' | h'
+       · exact Or.inl h'
+       · exact Or.inr (Or.inl (h2.wd a h'))
+       · exact Or.inr (Or.inr (h2.blk a h'))
+     · exact Or.inr h⟩
+
+theorem RunInv.fr {k k' : K} (h : RunInv k) (s : RunFr k k') : RunInv k' := by
+  intro a ha
+  rcases s.run a ha with h1 | h1
+  · rcases h a h1 with h2 | h2
+    · exact Or.inl (s.wd a h2)
+    · exact Or.inr (s.blk a h2)
+  · exact h1
+
+theorem runfr_of (k k' : K) (h1 : k'.actors = k.actors) (h2 : k'.toRun = k.toRun) : RunFr k k' :=
+  ⟨fun a => by unfold K.actor; rw [h1]; exact fun h => h, fun a => by unfold K.actor; rw [h1]; exact fun h => h,
+   fun a ha => by rw [h2] at ha; exact Or.inl ha⟩
+
+theorem runfr_register (k : K) (i a : Nat) : RunFr k (k.register i a) := by
+  unfold K.register
+  refine ⟨fun b h => ?_, fun b h => ?_, fun b hb => Or.inl hb⟩
+  · rw [actor_setActor_proj (·.wannadie) _ a b _ (by intro _; rfl)]; exact h
+  · rw [actor_setActor_proj (·.blocked) _ a b _ (by intro _; rfl)]; exact h
+
+theorem runfr_handle_go (a : Nat) (l : List Nat) (k : K) : RunFr k (K.handle.go a k l) := by
+  induction l generalizing k with
+  | nil => unfold K.handle.go; exact RunFr.refl k
+  | cons i rest ih =>
+    unfold K.handle.go
+    simp only []
+    split
+    · exact (runfr_register k i a).trans (shr_finish _ i).runFr
+    · exact (runfr_register k i a).trans (ih _)
+
+theorem handle_runfr (now : Rat) (k : K) (a : Nat) (r : Req) : RunFr k (k.handle now a r) := by
+  cases r with
+  | sleep d =>
+    simp only [K.handle]
+    refine RunFr.trans ?_ (runfr_register _ _ _)
+    exact runfr_of _ _ rfl rfl
+  | start slot kind d =>
+    simp only [K.handle]
+    refine RunFr.trans ?_ (shr_answer _ _).runFr
+    refine RunFr.trans ?_ (shr_setActor _ _ _ (by fr_side)).runFr
+    exact runfr_of _ _ rfl rfl
+  | iget slot q =>
+    simp only [K.handle]
+    split
+    · refine RunFr.trans ?_ (shr_answer _ _).runFr
+      refine RunFr.trans ?_ (shr_setActor _ _ _ (by fr_side)).runFr
+      refine RunFr.trans ?_ (shr_finish _ _).runFr
+      exact (shr_setImpl _ _ _ (by intro _; rfl)).runFr
+    · refine RunFr.trans ?_ (shr_answer _ _).runFr
+      refine RunFr.trans ?_ (shr_setActor _ _ _ (by fr_side)).runFr
+      exact runfr_of _ _ rfl rfl
+  | iput slot q =>
+    simp only [K.handle]
+    split
+    · refine RunFr.trans ?_ (shr_answer _ _).runFr
+      refine RunFr.trans ?_ (shr_setActor _ _ _ (by fr_side)).runFr
+      refine RunFr.trans ?_ (shr_finish _ _).runFr
+      exact (shr_setImpl _ _ _ (by intro _; rfl)).runFr
+    · refine RunFr.trans ?_ (shr_answer _ _).runFr
+      refine RunFr.trans ?_ (shr_setActor _ _ _ (by fr_side)).runFr
+      exact runfr_of _ _ rfl rfl
+  | waitFor i tau =>
+    simp only [K.handle]
+    split
+    · exact (runfr_register _ _ _).trans (shr_finish _ _).runFr
+    · split
+      · refine RunFr.trans ?_ (shr_setActor _ _ _ (by fr_side)).runFr
+        exact (runfr_register _ _ _).trans (runfr_of _ _ rfl rfl)
+      · exact runfr_register _ _ _
+  | waitAny is tau =>
+    simp only [K.handle]
+    refine RunFr.trans ?_ (runfr_handle_go _ _ _)
+    split
+    · exact ((shr_setActor _ _ _ (by fr_side)).trans (shr_setActor _ _ _ (by fr_side))).runFr
+    · refine RunFr.trans ?_ (shr_setActor _ _ _ (by fr_side)).runFr
+      exact (shr_setActor _ _ _ (by fr_side)).runFr.trans (runfr_of _ _ rfl rfl)
+  | test i =>
+    simp only [K.handle]
+    refine RunFr.trans ?_ (shr_answer _ _).runFr
+    split
+    · exact ((shr_finish _ _).trans (shr_setActor _ _ _ (by fr_side))).runFr
+    · exact (shr_setActor _ _ _ (by fr_side)).runFr
+  | cancel i =>
+    simp only [K.handle]
+    exact ((shr_cancel _ _).trans (shr_answer _ _)).runFr
+  | killAt t =>
+    simp only [K.handle]
+    refine RunFr.trans ?_ (shr_answer _ _).runFr
+    split
+    · exact RunFr.refl k
+    · refine RunFr.trans ?_ (shr_setActor _ _ _ (by fr_side)).runFr
+      exact runfr_of _ _ rfl rfl
+
+/-- `simcall_handle` of every actor that ran -/
+theorem handlePending_reg (now : Rat) (l : List Nat) (k : K) (h : RegInv k) (hr : RunInv k) :
+    RegInv (handlePending now k l) ∧ RunInv (handlePending now k l) := by
+  induction l generalizing k with
+  | nil => exact ⟨h, hr⟩
+  | cons a rest ih =>
+    unfold handlePending
+    split
+    · rename_i r hpd
+      simp only []
+      have ha : a < k.actors.length := by
+        by_cases hlt : a < k.actors.length
+        · exact hlt
+        · rw [actor_of_ge k a (by omega)] at hpd; cases hpd
+      have e1 : (k.setActor a fun x => { x with pending := none }).actor a = { k.actor a with pending := none } :=
+        actor_setActor_same _ _ _ ha
+      have s1 := shr_setActor k a (fun x => { x with pending := none }) (by fr_side)
+      have hr1 : RunInv (k.setActor a fun x => { x with pending := none }) := hr.fr s1.runFr
+      split
+      · rename_i hwd
+        rw [e1] at hwd
+        have h1 : RegInv (k.setActor a fun x => { x with pending := none }) :=
+          RegInv.setWd h a _ hwd rfl rfl (h.slots a) (by intro i hi; simp [Actor.ar] at hi) (h.rank a)
+        exact ih _ h1 hr1
+      · rename_i hwd
+        rw [e1] at hwd
+        have hwd' : (k.actor a).wannadie = false := by simpa using hwd
+        have hblk : (k.actor a).blocked = true :=
+          h.pb a hwd' (by show (k.actor a).pending.isSome = true; rw [hpd]; rfl)
+        have hidl : (k.arF a).idle = true := by show (k.actor a).idle = true; simp [Actor.idle, hpd]
+        obtain ⟨hw, htcb⟩ := h.idle a hwd' hidl
+        have h1 : RegInv (k.setActor a fun x => { x with pending := none }) := by
+          refine RegInv.flags h a _ rfl rfl rfl rfl rfl (h.slots a) (by intro i hi; simp [Actor.ar] at hi) (h.rank a)
+            ?_ ?_
+          · intro _ hid
+            exfalso
+            simp [Actor.idle, hblk] at hid
+          · intro _ hp; simp at hp
+        have hp : HPre (k.setActor a fun x => { x with pending := none }) a :=
+          ⟨by simpa using ha, by rw [e1]; exact hblk, by rw [e1], by rw [e1]; exact hwd', by rw [e1]; exact hw,
+           by rw [e1]; exact htcb⟩
+        have hidx : ∀ i ∈ r.idx, i < (k.setActor a fun x => { x with pending := none }).impls.length := by
+          intro i hi
+          have := h.pidx a i (by show i ∈ ((k.actor a).pending.map Req.idx).getD []; rw [hpd]; exact hi)
+          simpa using this
+        exact ih _ (handle_reg now _ a r h1 hp hidx) (hr1.fr (handle_runfr now _ a r))
+    · exact ih _ h hr
+
+theorem handleEnded_reg (now : Rat) (n : Nat) (k : K) (h : RegInv k) (hr : RunInv k) :
+    RegInv (k.handleEnded now n) ∧ RunInv (k.handleEnded now n) := by
+  induction n generalizing k with
+  | zero => exact ⟨h, hr⟩
+  | succ n ih =>
+    unfold K.handleEnded
+    split
+    · exact ih _ (finish_reg _ _ h) (hr.fr (shr_finish _ _).runFr)
+    · split
+      · refine ih _ (finish_reg _ _ (h.same (rsame_setImpl _ _ _ (by intro _; rfl)))) (hr.fr ?_)
+        exact RunFr.trans (k2 := k.setImpl _ _) (runfr_of _ _ rfl rfl) (shr_finish _ _).runFr
+      · exact ⟨h, hr⟩
+
+/-! ### actor slices -/
+
+/-- any update of a clean (registered nowhere, no timeout timer) or dying actor that keeps those facts -/
+theorem RegInv.cleanUpd {k : K} (h : RegInv k) (a : Nat) (f : Actor → Actor)
+    (hcl : (k.actor a).wannadie = true ∨ ((k.actor a).waiting = [] ∧ (k.actor a).tcb = none))
+    (hw : (f (k.actor a)).waiting = (k.actor a).waiting) (ht : (f (k.actor a)).tcb = (k.actor a).tcb)
+    (hkt : (f (k.actor a)).ktimer = (k.actor a).ktimer)
+    (hwd : (f (k.actor a)).wannadie = (k.actor a).wannadie)
+    (hsl : ∀ i ∈ (f (k.actor a)).ar.slotIdx, i < k.impls.length)
+    (hpi : ∀ i ∈ (f (k.actor a)).ar.pidx, i < k.impls.length)
+    (hrk : (f (k.actor a)).ar.rank = true → 0 < k.impls.length)
+    (hpb : (f (k.actor a)).wannadie = false → (f (k.actor a)).pending.isSome = true →
+      (f (k.actor a)).blocked = true) :
+    RegInv (k.setActor a f) := by
+  cases hwdc : (k.actor a).wannadie with
+  | true => exact RegInv.setWd h a f (by rw [hwd]; exact hwdc) ht hkt hsl hpi hrk
+  | false =>
+    have hc : (k.actor a).waiting = [] ∧ (k.actor a).tcb = none := by
+      rcases hcl with h1 | h1
+      · rw [hwdc] at h1; cases h1
+      · exact h1
+    by_cases ha : a < k.actors.length
+    · have hnt := NT_of_tcb_none h a (by show (k.actor a).ar.tcb = none; exact hc.2)
+      refine RegInv.mk' _ (RegInvF.upd h a (f (k.actor a)).ar k.simF ?_ ?_ ?_ ?_ ?_ ?_ hsl hpi hrk hpb) rfl
+        (arF_setActor k a f ha) rfl rfl rfl
+      · intro b j hb
+        by_cases hba : b = a
+        · subst hba; simp only [updF_same] at hb ⊢
+          show _ = (f (k.actor b)).waiting.count j
+          rw [hw]; exact h.cnt b j hwdc
+        · rw [updF_ne _ _ _ _ hba] at hb ⊢; exact h.cnt b j hb
+      · intro _ _
+        show (f (k.actor a)).waiting = [] ∧ (f (k.actor a)).tcb = none
+        rw [hw, ht]; exact hc
+      · intro _; left
+        show (f (k.actor a)).waiting.length ≤ 1
+        rw [hw, hc.1]; simp
+      · intro t ht' hc'; exact absurd hc' (hnt t ht')
+      · intro id hid
+        have : (f (k.actor a)).tcb = some id := hid
+        rw [ht, hc.2] at this; cases this
+      · intro id hid
+        have : (f (k.actor a)).ktimer = some id := hid
+        rw [hkt] at this
+        exact h.klink a id this
+    · rw [setActor_of_ge _ _ _ (by omega)]; exact h
+
+def RunOk (k : K) (a : Nat) : Prop := (k.actor a).wannadie = true ∨ (k.actor a).idle = true
+
+theorem RunOk.clean {k : K} {a : Nat} (hr : RunOk k a) (h : RegInv k) :
+    (k.actor a).wannadie = true ∨ ((k.actor a).waiting = [] ∧ (k.actor a).tcb = none) := by
+  rcases hr with h1 | h1
+  · exact Or.inl h1
+  · cases hwd : (k.actor a).wannadie with
+    | true => exact Or.inl rfl
+    | false => exact Or.inr (h.idle a hwd h1)
+
+theorem slot_valid {k : K} (h : RegInv k) (a s i : Nat) (st : SState) (hs : (k.actor a).slot s = some (i, st)) :
+    i < k.impls.length := by
+  apply h.slots a
+  unfold Actor.slot at hs
+  split at hs
+  · rename_i s' i' st' hf
+    injection hs with hs; injection hs with h1 h2; subst h1
+    have := List.mem_of_find?_eq_some hf
+    show i' ∈ (k.actor a).slots.map (·.2.1)
+    exact List.mem_map.mpr ⟨_, this, rfl⟩
+  · cases hs
+
+theorem sliceUpd_reg (k : K) (a : Nat) (f : Actor → Actor) (h : RegInv k) (hr : RunOk k a) (hf : SliceUpd k a f) :
+    RegInv (k.setActor a f) ∧ RunOk (k.setActor a f) a := by
+  have hro : ∀ (g : Actor → Actor), (∀ x, (g x).wannadie = x.wannadie ∧ (g x).blocked = x.blocked ∧
+      (g x).pending = x.pending) → RunOk (k.setActor a g) a := by
+    intro g hg
+    unfold RunOk
+    rw [actor_setActor]
+    split
+    · rcases hr with h1 | h1
+      · exact Or.inl (by rw [(hg _).1]; exact h1)
+      · right; unfold Actor.idle at h1 ⊢; rw [(hg _).2.1, (hg _).2.2]; exact h1
+    · exact hr
+  cases hf with
+  | next =>
+    refine ⟨?_, hro _ (fun _ => ⟨rfl, rfl, rfl⟩)⟩
+    exact RegInv.cleanUpd h a _ (hr.clean h) rfl rfl rfl rfl (h.slots a) (h.pidx a)
+      (by intro hr; simp [Actor.ar] at hr) (h.pb a)
+  | slot s i st st' hs =>
+    refine ⟨?_, hro _ (fun _ => ⟨rfl, rfl, rfl⟩)⟩
+    refine RegInv.cleanUpd h a _ (hr.clean h) rfl rfl rfl rfl ?_ (h.pidx a) (h.rank a) (h.pb a)
+    intro j hj
+    rcases mem_setSlot _ _ _ _ _ hj with hj | hj
+    · rw [hj]; exact slot_valid h a s i st' hs
+    · exact h.slots a j hj
+  | slotAny s r st hres =>
+    refine ⟨?_, hro _ (fun _ => ⟨rfl, rfl, rfl⟩)⟩
+    refine RegInv.cleanUpd h a _ (hr.clean h) rfl rfl rfl rfl ?_ (h.pidx a) (h.rank a) (h.pb a)
+    intro j hj
+    rcases mem_setSlot _ _ _ _ _ hj with hj | hj
+    · rw [hj]
+      cases hsl : (k.actor a).slot s with
+      | none =>
+        simp only [Option.map, Option.getD]
+        exact h.rank a (by show (match (k.actor a).res with | .rank _ => true | _ => false) = true; rw [hres])
+      | some p =>
+        simp only [Option.map, Option.getD]
+        exact slot_valid h a s p.1 p.2 hsl
+    · exact h.slots a j hj
+
+theorem issue_reg (k : K) (a : Nat) (r : Req) (b : Bool) (h : RegInv k) (hr : RunOk k a)
+    (hidx : ∀ i ∈ r.idx, i < k.impls.length) : RegInv (k.issue a r b) ∧ RunOk (k.issue a r b) a := by
+  unfold K.issue
+  constructor
+  · refine RegInv.cleanUpd h a _ (hr.clean h) rfl rfl rfl rfl (h.slots a) ?_ (by intro hr; simp [Actor.ar] at hr)
+      (fun _ _ => rfl)
+    intro i hi
+    exact hidx i (by simpa [Actor.ar] using hi)
+  · unfold RunOk
+    rw [actor_setActor]
+    split
+    · right; simp [Actor.idle]
+    · exact hr
+
+theorem reqFrom_idx {k : K} (h : RegInv k) (a : Nat) (r : Req) (hf : ReqFrom (k.actor a) r) :
+    ∀ i ∈ r.idx, i < k.impls.length := by
+  intro i hi
+  cases r with
+  | waitFor j tau =>
+    simp only [Req.idx, List.mem_singleton] at hi
+    obtain ⟨s, st, hs⟩ := hf
+    rw [hi]; exact slot_valid h a s j st hs
+  | waitAny is tau =>
+    simp only [Req.idx] at hi
+    obtain ⟨s, st, hs⟩ := hf i hi
+    exact slot_valid h a s i st hs
+  | sleep d => simp [Req.idx] at hi
+  | start s kd d => simp [Req.idx] at hi
+  | iget s q => simp [Req.idx] at hi
+  | iput s q => simp [Req.idx] at hi
+  | test j => simp [Req.idx] at hi
+  | cancel j => simp [Req.idx] at hi
+  | killAt t => simp [Req.idx] at hi
+
+theorem die_runOk (k : K) (a : Nat) (failed : Bool) : RunOk (k.die a failed).1 a := by
+  rw [die_eq]
+  unfold RunOk
+  rw [actor_setActor]
+  split
+  · left; rfl
+  · rename_i hn
+    right
+    simp only [true_and, Nat.not_lt] at hn
+    rw [actor_of_ge _ _ hn]; rfl
+
+theorem slice_reg (a : Nat) (fuel : Nat) (k : K) (evs : List Ev) (h : RegInv k) (hr : RunOk k a) :
+    RegInv (k.slice a fuel evs).1 ∧ RunOk (k.slice a fuel evs).1 a := by
+  refine slice_ind a (fun k' => RegInv k' ∧ RunOk k' a) (fun k' => RegInv k' ∧ RunOk k' a) ?_ ?_ ?_ ?_
+    (fun _ h => h) fuel k evs ⟨h, hr⟩
+  · intro k' f hp hf; exact sliceUpd_reg k' a f hp.1 hp.2 hf
+  · intro k' r b hp _ hfrom; exact issue_reg k' a r b hp.1 hp.2 (reqFrom_idx hp.1 a r hfrom)
+  · intro k' s hp
+    exact ⟨hp.1.same (rsame_of _ _ rfl rfl rfl rfl), hp.2⟩
+  · intro k' hp
+    exact ⟨die_reg k' a false hp.1, die_runOk k' a false⟩
+
 end SgVerif.TimeCore
